@@ -139,6 +139,17 @@ unsafe fn validate_utf8_avx2(input: &[u8]) -> bool {
     }
 }
 
+/// verif-hooks: the raw AVX2 accept kernel; `None` when the CPU lacks AVX2.
+#[cfg(feature = "verif-hooks")]
+pub fn verif_validate_utf8_avx2(input: &[u8]) -> Option<bool> {
+    if is_x86_feature_detected!("avx2") {
+        // SAFETY: AVX2 checked above.
+        Some(unsafe { validate_utf8_avx2(input) })
+    } else {
+        None
+    }
+}
+
 /// Test-only: run the raw AVX2 kernel over `input`.
 ///
 /// The kernel-vs-std differential test gates on `is_x86_feature_detected!`
